@@ -1,7 +1,9 @@
 package sdl
 
 import (
+	"encoding/json"
 	"fmt"
+	"strings"
 
 	"github.com/uhn/ggql/pkg/ggql"
 
@@ -17,6 +19,7 @@ func BuildAPI(root *ggql.Root, s *hx.Schema) (err error, usable bool) {
 	if s.Roots != nil || len(s.ExtRoots) > 0 || len(s.RootDirs) > 0 {
 		return nil, false
 	}
+	s = readerNormalDescs(s)
 	ref := func(name string) ggql.Type { return &ggql.Ref{Base: ggql.Base{N: name}} }
 	var tref func(t *hx.TRef) ggql.Type
 	tref = func(t *hx.TRef) ggql.Type {
@@ -165,4 +168,52 @@ func (t *apiScalar) CoerceOut(v interface{}) (interface{}, error) {
 		return tv.String(), nil
 	}
 	return fmt.Sprint(v), nil
+}
+
+// ReaderNormalDesc is what ggql's SDL reader makes of a description (parser.go readDesc, by design:
+// "documentation strings with multiple lines should have the indentation removed"): every line
+// trimmed, blank lines dropped. A description that is not in this form can be given to the Go API
+// but can not come back from printed SDL, so the API path only uses descriptions in this form.
+func ReaderNormalDesc(d string) string {
+	var lines []string
+	for _, l := range strings.Split(d, "\n") {
+		if l = strings.TrimSpace(l); l != "" {
+			lines = append(lines, l)
+		}
+	}
+	return strings.Join(lines, "\n")
+}
+
+// readerNormalDescs returns a copy of the model with every description in reader-normal form.
+func readerNormalDescs(s *hx.Schema) *hx.Schema {
+	b, err := json.Marshal(s)
+	if err != nil {
+		return s
+	}
+	var c hx.Schema
+	if err := json.Unmarshal(b, &c); err != nil {
+		return s
+	}
+	for _, d := range c.Dirs {
+		d.Desc = ReaderNormalDesc(d.Desc)
+		for _, a := range d.Args {
+			a.Desc = ReaderNormalDesc(a.Desc)
+		}
+	}
+	for _, td := range c.Types {
+		td.Desc = ReaderNormalDesc(td.Desc)
+		for _, f := range td.Fields {
+			f.Desc = ReaderNormalDesc(f.Desc)
+			for _, a := range f.Args {
+				a.Desc = ReaderNormalDesc(a.Desc)
+			}
+		}
+		for _, f := range td.Inputs {
+			f.Desc = ReaderNormalDesc(f.Desc)
+		}
+		for _, v := range td.Values {
+			v.Desc = ReaderNormalDesc(v.Desc)
+		}
+	}
+	return &c
 }
